@@ -9,7 +9,7 @@
    and are therefore decided at the code level by the correspondence/oracle only. *)
 From PG Require Import Common.Tactics Model.Geno Model.Evo Model.EvoOps
   Proofs.GenoConcrete Proofs.EvoBase Proofs.EvoSel Proofs.EvoComp Proofs.EvoMut Proofs.EvoSwap Proofs.EvoSeg Proofs.EvoPw Proofs.EvoRec
-  Proofs.EvoExamples.
+  Proofs.EvoPwTotal Proofs.EvoExamples.
 
 (* the contract assumed of random.Random is satisfiable *)
 Theorem C14_rng_contract_inhabited : rng_ok first_rng.
@@ -65,6 +65,15 @@ Proof.
   destruct (bind_complete q s c Hwf Hc) as (b & Hb & _ & Ha). eauto.
 Qed.
 Print Assumptions C14_recombinator_closed_pointwise.
+
+(* ... and every parent ends up with a complete set of decisions, whatever the where filter selects: the
+   "Value for ... is not found" failure of from_dict cannot occur (the repaired behaviour: the decision points under a
+   choice that was replaced in some parent are recombined as well) *)
+Theorem C14_recombinator_pointwise_complete : forall R (G : rng R) kd ws tgt s ps r outs r',
+  Forall (fun d => valid s d = true) ps ->
+  pw_space R G kd ws tgt s [] false (map Some ps) r = Ok (outs, r') -> opt_list outs <> None.
+Proof. exact pointwise_complete. Qed.
+Print Assumptions C14_recombinator_pointwise_complete.
 
 (* KPoint and Segmented (any cutting points) *)
 Theorem C14_recombinator_closed_segmentwise : forall R (G : rng R) q s x y, wf s = true -> valid s x = true -> valid s y = true ->
